@@ -43,6 +43,8 @@ type Case struct {
 	// CLI cases (Kind == "cli"): the template goes to `rare expression` in a child process
 	CliVmemKB int `json:"cli_vmem_kb,omitempty"`
 	CliSecs   int `json:"cli_secs,omitempty"`
+	// maxOut: the generator's upper bound on the output size (resource guard); not part of the case
+	maxOut float64
 }
 
 func b64(s string) string { return base64.StdEncoding.EncodeToString([]byte(s)) }
@@ -220,6 +222,11 @@ func runCase(c *run.Ctx, cs *Case) (out outcome, nilnil bool) {
 				c.Count("evaluated_with_error_marker", 1)
 			}
 			c.Max("max_output_bytes", int64(len(s)))
+			if cs.maxOut > 0 && float64(len(s)) > cs.maxOut {
+				// self-check of the resource guard (never a verdict): its model of a helper is too small
+				c.Count("size_bound_model_underestimates", 1)
+				c.Note(fmt.Sprintf("size bound %0.f < actual output %d for template %s", cs.maxOut, len(s), cs.Show))
+			}
 		}
 	}
 	c.Count("evaluated", int64(out.evals))
@@ -304,9 +311,12 @@ func markNontrivial(c *run.Ctx, cs *Case, out outcome) {
 	if !reCall.MatchString(tmpl) {
 		return
 	}
+	// one fingerprint per (template, contexts) group: the evaluations of a group share the template
+	parts := []string{cs.T}
 	for _, x := range cs.Ctxs {
-		c.Nontrivial(cs.T, strings.Join(x.E, ","), fmt.Sprint(len(x.K)), ctxKeyHash(x))
+		parts = append(parts, strings.Join(x.E, ","), ctxKeyHash(x))
 	}
+	c.Nontrivial(parts...)
 	c.Count("templates_with_call_compiled", 1)
 }
 
@@ -328,9 +338,10 @@ func execCase(c *run.Ctx, cs *Case) (onlyKnown bool) {
 }
 
 func execCaseOut(c *run.Ctx, cs *Case) (onlyKnown bool, out outcome) {
-	limit := 60 * time.Second
+	// watchdog only (a firing alone is inconclusive): generous, the machine may be shared with 100+ busy processes
+	limit := 240 * time.Second
 	if cs.Kind == "shape" {
-		limit = 180 * time.Second // 2000-level nesting is quadratic in the compiler: seconds, more under load
+		limit = 600 * time.Second // 2000-level nesting is quadratic in the compiler: seconds when idle
 	}
 	c.Begin(cs, limit)
 	t0 := time.Now()
@@ -356,7 +367,15 @@ func Run(c *run.Ctx) {
 			return
 		}
 		if cs.Kind == "cli" {
-			runCli(c, &cs)
+			if crashed, detail := runCli(c, &cs); crashed {
+				fp := "cli-crash:" + run.Hash64(cs.T)
+				for _, w := range fatalWitnesses() {
+					if w.cs.T == cs.T {
+						fp = w.fp
+					}
+				}
+				c.Violation(fp, fmt.Sprintf("`rare expression` on template %s: %s", cs.Show, detail), &cs)
+			}
 			return
 		}
 		execCase(c, &cs)
@@ -403,10 +422,10 @@ func Run(c *run.Ctx) {
 		gen  func(r *run.Rand, i int) *Case
 	}
 	streams := []stream{
-		{"calls", c.N(26000, 420000), g.callsCase},
-		{"tree", c.N(14000, 260000), g.treeCase},
-		{"data", c.N(1500, 24000), g.dataCase},
-		{"malformed", c.N(14000, 240000), g.malformedCase},
+		{"calls", c.N(52000, 1000000), g.callsCase},
+		{"tree", c.N(28000, 600000), g.treeCase},
+		{"data", c.N(3000, 50000), g.dataCase},
+		{"malformed", c.N(28000, 600000), g.malformedCase},
 	}
 	for _, st := range streams {
 		for i := 0; i < st.n; i++ {
